@@ -24,6 +24,7 @@ def run(env: Env) -> Outcome:
     out.rule = ("policy specs (exact) + live retry-heavy scripted workflows with delays under virtual time; non-trivial = more than 2 ticks; "
                 "distinct by (spec, schedule)")
     policy.correspondence(env, out, env.budget(3000, 60000))
+    policy.units_stream(env, out, env.budget(150, 3000))
     suite.direct_corr(env, out, env.budget(1500, 30000))
     suite.live_runs(env, out, env.budget(150, 3000), [monitors.mon_c06], extra_specs=suite.load_corpus("C06"))
     suite.live_runs(env, out, env.budget(300, 6000), [monitors.mon_c06], gen_kwargs={"family": "retry"})
